@@ -426,6 +426,29 @@ fire('C15', 'padding-through-streambuf-iterator', ('src/Parameter.cpp', '#includ
 fire('C11', 'name-moved-then-trimmed', ('include/Point.h', '    void name(const std::string &name);', '    void name(const std::string &name);\n    void name(std::string &&name);'),
      ('src/Point.cpp', 'void ezc3d::DataNS::Points3dNS::Point::name(const std::string &name)', 'void ezc3d::DataNS::Points3dNS::Point::name(std::string &&name)\n{\n    _name = std::move(name);\n    ezc3d::removeTrailingSpaces(name);\n}\n\nvoid ezc3d::DataNS::Points3dNS::Point::name(const std::string &name)'))
 
+# ---- round-10 / quiet rounds 11-12 rules
+for pid in ('C12', 'C17'):
+    fire(pid, 'header-word-in-short-member', ('include/Header.h', '    size_t _nbMaxInterpGap;', '    short _nbMaxInterpGap;'))
+fire('C09', 'merge-loop-over-existing-group', ('src/Parameters.cpp', '        for (size_t i=0; i < g.nbParameters(); ++i)\n            _groups[alreadyExtIdx].parameter(g.parameter(i));',
+     '        for (size_t i=0; i < _groups[alreadyExtIdx].nbParameters(); ++i)\n            _groups[alreadyExtIdx].parameter(g.parameter(i));'))
+for pid in ('C03', 'C05'):
+    fire(pid, 'rate-difference-truncated', (W, 'if (static_cast<int>(pointRate*buffer) != static_cast<int>(header().frameRate()*buffer)){', 'if (static_cast<int>(pointRate - header().frameRate())*buffer != 0){'))
+for pid in ('C01', 'C12'):
+    fire(pid, 'negative-residual-normalised', ('src/Point.cpp', '    _data[3] = residual;', '    _data[3] = residual < 0 ? -1 : residual;'))
+for pid in ('C13', 'C16'):
+    fire(pid, 'trailing-placeholders-popped-unchecked', ('src/Parameters.cpp', '''            nextParamByteInFile = group_nonConst(static_cast<size_t>(id-1)).parameter(file, nbCharInName);
+    }''', '''            nextParamByteInFile = group_nonConst(static_cast<size_t>(id-1)).parameter(file, nbCharInName);
+    }
+    while (_groups.back().name().empty())
+        _groups.pop_back();'''))
+quiet('C15', 'rdstate-mask', (W, FINAL, '''    const std::ios_base::iostate errorBits(std::ios_base::failbit | std::ios_base::badbit);
+    if ((f.rdstate() & errorBits) == std::ios_base::goodbit)
+        return;
+    throw std::ios_base::failure("Could not write the c3d file");'''))
+fire('C15', 'rdstate-badbit-only', (W, FINAL, '''    if ((f.rdstate() & std::ios_base::badbit) == std::ios_base::goodbit)
+        return;
+    throw std::ios_base::failure("Could not write the c3d file");'''))
+
 def main():
     made = 0
     skipped = []
